@@ -24,6 +24,7 @@ THEOREMS = [
     "crc_detects_byte_overwrite", "verify_detects", "verify_or_unchanged_partial",
     "detected_every_time_unsound", "detected_first_read_partial", "fixed_read_path_detects_every_time",
     "cktype_field_unprotected_witness", "index_open_detects", "index_count_unprotected_witness",
+    "compaction_launders_unsound", "laundered_block_verifies", "compaction_fixed_never_launders",
 ]
 
 SIG_CACHE = "read:cache-before-verify"
@@ -31,6 +32,7 @@ SIG_CKTYPE = "trailer:cktype-overwrite"
 SIG_IDX_CKTYPE = "idx-footer:cktype-overwrite"
 SIG_COUNT = "idx:footer-count-unprotected"
 SIG_OPEN = "idx:open-failure-blocks-database"
+SIG_LAUNDER = "compaction:launders-corrupted-block"
 
 
 def be(n, w):
@@ -298,9 +300,71 @@ def disk_decide(ck, layouts, cases, model_answers, cov):
     return mvi, ivo
 
 
+def compact_decide(ck, cases, manswers, cov):
+    """Background compaction reads the corrupted block first (c18 compact)."""
+    mvi = {"compared": 0, "disagree": 0}
+    ivo = {"compared": 0, "disagree": 0, "known": 0}
+    dist = Counter()
+    for case, m in zip(cases, manswers):
+        res = case["res"]
+        r = {}
+        for k, v in re.findall(r"(open|reopen|c1|c2|q1|q2|u|r1|r2|dirs):(DIFF:(?:\([^)]*\) ?)*|\S+)", res):
+            r[k] = "DIFF" if v.startswith("DIFF") else v
+        newdir = "0_3" in r.get("dirs", "")
+        pk = case["patch"].split(":")[0]
+        if not case["changed"]:
+            continue
+        replay = {"file": case["file"], "patch": case["patch"], "seq": case["seq"], "observed": res[:1200], "model": m,
+                  "how": "c18 compact: table t in two row-sets, one block corrupted; A: compaction pass x2, SELECT, reopen, SELECT x2; B: SELECT, compaction pass, SELECT, reopen, SELECT x2"}
+        ivo["compared"] += 1
+        viol = []
+        for q in ("q1", "q2", "r1", "r2"):
+            if r.get(q) == "DIFF":
+                if pk == "zero12":
+                    sig = SIG_CKTYPE
+                elif q in ("r1", "r2") and newdir:
+                    sig = SIG_LAUNDER
+                elif q in ("q1", "q2") and newdir:
+                    sig = SIG_LAUNDER
+                elif (q == "q2" and r.get("q1") == "err:checksum") or (q == "r2" and r.get("r1") == "err:checksum") or (q == "q1" and case["seq"] == "A"):
+                    sig = SIG_CACHE
+                else:
+                    sig = None
+                viol.append((sig, "%s returns Ok with different rows%s" % (q, " from the row-set a compaction pass wrote (valid checksums)" if sig == SIG_LAUNDER else "")))
+        if r.get("u") != "same":
+            viol.append((None, "untouched table u = %s" % r.get("u")))
+        dist["%s/%s -> c1:%s c2:%s newrowset:%s reopen:%s" % (case["seq"], pk, r.get("c1"), r.get("c2", "-"), newdir, r.get("r1"))] += 1
+        if viol:
+            ivo["disagree"] += 1
+        for sig, what in viol:
+            if sig:
+                if ck.report(sig, "compaction sequence %s, %s: %s" % (case["seq"], case["patch"], what), replay=replay) == "known":
+                    ivo["known"] += 1
+            else:
+                ck.report("compact:%s/%s" % (case["seq"], pk), what, replay=replay)
+        # model: reads of the affected block in order (first load, then cache hits)
+        mvi["compared"] += 1
+        outs = m.split(" ")
+        first_err = outs[0].startswith("err") if outs and outs[0] else False
+        second_ok = len(outs) > 1 and outs[1].startswith("ok:")
+        if first_err and not second_ok:
+            ok = not newdir      # every read fails: compaction can never write the table
+        elif first_err:
+            # first reader fails, the next one gets the cached block: laundering possible
+            ok = newdir or "panic" in (r.get("c1"), r.get("c2")) or r.get("c1") == "ok"
+        else:
+            ok = newdir or "panic" in (r.get("c1"), r.get("c2"))   # accepted at once (e.g. zero12 / padding bits)
+        if not ok:
+            mvi["disagree"] += 1
+            ck.report("corr:compact/%s/%s" % (case["seq"], pk), "model prediction and compaction outcome disagree: model %s observed %s" % (m[:160], res[:300]),
+                      replay=replay, found_input=False)
+    cov.setdefault("distribution", {})["compaction_cases"] = dict(sorted(dist.items()))
+    return mvi, ivo
+
+
 def run(ck):
-    n_cols = 6 if ck.quick() else 120
-    n_disk = 700 if ck.quick() else 20000
+    n_cols = 8 if ck.quick() else 120
+    n_disk = 1000 if ck.quick() else 20000
     rc, out = vlib.sh([sys.executable, os.path.join(vlib.VERIF, "translator", "gen_consts.py")])
     ck.log(out.strip())
     if rc != 0:
@@ -432,17 +496,38 @@ def run(ck):
     rcm, mout = vlib.sh([vlib.lean_exe("drv_c18")], stdin="\n".join(dreq) + "\n")
     manswers = [l.strip() for l in mout.split("\n")][:len(cases)]
     dmvi, divo = disk_decide(ck, layouts, cases, manswers, cov)
+    # ---- compaction reads it first
+    n_comp = 260 if ck.quick() else 3000
+    ck.log("compaction level: %d cases (two row-sets, one corrupted block, compaction passes before/after queries)" % n_comp)
+    rc4, cout = vlib.sh([vlib.harness_bin("c18"), "compact", ck.work, str(n_comp)], timeout=3000)
+    ccases = []
+    for line in cout.split("\n"):
+        if line.startswith("{\"file\""):
+            try:
+                ccases.append(json.loads(line))
+            except ValueError:
+                pass
+    if rc4 != 0 or not ccases:
+        ck.report("run:compact", "compaction run failed (rc=%s): %s" % (rc4, cout[-400:]), replay={"tail": cout[-2000:]}, found_input=False)
+    creq = []
+    for c in ccases:
+        # layout of the file from the harness is not printed here: the model only needs the block, so
+        # the request is built from the pristine bytes on the harness side (hex travels in `layout`)
+        creq.append("col %s %s %s C g%d g%d g%d F g%d" % (c.get("hex", ""), c.get("entries", ""), c["patch"], c["block"], c["block"], c["block"], c["block"]))
+    rcm2, mout2 = vlib.sh([vlib.lean_exe("drv_c18")], stdin="\n".join(creq) + "\n")
+    cmans = [l.strip() for l in mout2.split("\n")][:len(ccases)]
+    cmvi, civo = compact_decide(ck, ccases, cmans, cov)
     for name, st in bad.items():
         ck.report("thm:" + name, "theorem %s is not discharged (%s)" % (name, st.get("status")), replay={"theorem": name, "status": st}, found_input=False)
     cov.setdefault("distribution", {}).update({"column_level_requests": dict(kinds), "column_level_outcomes": dict(sorted(outcomes.items())),
                                                 "disk_files": {n: l["len"] for n, l in layouts.items()}})
     cov.update({
-        "evaluations": len(reqs) + len(cases),
+        "evaluations": len(reqs) + len(cases) + len(ccases),
         "distinct_nontrivial": len(distinct) + len({(c["file"], c["patch"]) for c in cases}),
         "rule": "distinct (file bytes, patch, read sequence) with a patch that changes at least one byte; on-disk: distinct (file, patch)",
         "samples": [r[:200] for r in reqs[len(corpus):len(corpus) + 2]] + [json.dumps(c)[:300] for c in cases[:3]],
-        "model_vs_impl": {"compared": mvi["compared"] + dmvi["compared"], "disagree": mvi["disagree"] + dmvi["disagree"], "column_level": mvi, "disk_level": dmvi},
-        "impl_vs_oracle": {"compared": ivo["compared"] + divo["compared"], "disagree": ivo["disagree"] + divo["disagree"], "known": ivo["known"] + divo["known"], "column_level": ivo, "disk_level": divo},
+        "model_vs_impl": {"compared": mvi["compared"] + dmvi["compared"] + cmvi["compared"], "disagree": mvi["disagree"] + dmvi["disagree"] + cmvi["disagree"], "column_level": mvi, "disk_level": dmvi, "compaction_level": cmvi},
+        "impl_vs_oracle": {"compared": ivo["compared"] + divo["compared"] + civo["compared"], "disagree": ivo["disagree"] + divo["disagree"] + civo["disagree"], "known": ivo["known"] + divo["known"] + civo["known"], "column_level": ivo, "disk_level": divo, "compaction_level": civo},
         "model_vs_oracle": mvo,
     })
     return ck.finish(level="proof", checker_cmd="translator/gen_consts.py; lake build RlModel.Thm.C18 drv_c18; #print axioms audit",
